@@ -6,6 +6,7 @@ def run(ctx):
     M.ord7_catalogue_rows_in_same_segment(ctx)
     M.tbl6_ingestion_siblings(ctx)
     M.who3_column_names_writers(ctx)
+    M.ord12_names_loaded_before_ingest(ctx)
     M.lit2_catalogue_literals(ctx)
     M.flw2_compaction_covers_names(ctx)
     return ctx.finish(
